@@ -100,7 +100,7 @@ def mt_backpressure(ctx):
 def correspondence(ctx):
     rng = ctx.rng
     exe = frames.harness()
-    n = 1200 if ctx.quick() else 20000
+    n = 1200 if ctx.quick() else 10000
     cases, lines = [], []
     for i in range(n):
         kind, x = datagen.gen(rng, 300000 if i % 7 == 0 else 20000)
